@@ -195,6 +195,8 @@ def run(ctx):
                     problems.add("when the outcome call raises, stopTest is not sent (the target keeps a test open)")
                 if "stopTest" in names and m not in names:
                     problems.add("stopTest is sent although the outcome was never attempted")
+                if m in names and r.state.get("self._test_tags") != ("tuple", ("set", ("empty",)), ("set", ("empty",))):
+                    problems.add("when the outcome (or stopTest) raises in the target, the per-test tag buffer is not reset: the finished test's tags are replayed inside the forwarder's next test")
         if n_normal == 0:
             problems.add("no normal path")
         ctx.check("R-BLOCK-ORDER", f"{TFR}.{m}: block = start time, startTest, end time, tags, outcome, stopTest (also when the target raises)", f_, not problems,
